@@ -1,6 +1,7 @@
 (* C07 - definitions are pure textual substitution, independent of their order. Statements only. *)
 From Coq Require Import String Permutation.
 From Verif Require Import Base.Str Base.Lines Base.Outcome Regex.Re Regex.Equiv Model.Patterns Model.ParseLine Model.Passes Model.CmdLine Model.Parser Model.Assembler Model.Generate.
+From Verif Require Import Model.DefsTok Proofs.DefsTokProofs.
 From Verif Require Import Proofs.EquivSound Proofs.PassesProofs Proofs.CmdLineProofs Proofs.ParserProofs Proofs.AssemblerProofs.
 From Verif Require Tie.Pin_lits_regex_parser_parser_expandDefinitions Tie.Pin_lits_regex_parser_parser_Parser_Parse Tie.Pin_DefinitionRegex_src Tie.Pin_DefinitionReferenceRegex_src.
 Open Scope N_scope.
@@ -21,3 +22,34 @@ Theorem C07_first_definition_wins :
 Proof. exact merge_def_keeps. Qed.
 Print Assumptions C07_first_definition_wins.
 
+(* the expansion on tokens (literal characters and references to defined names): for acyclic
+   definitions the result is the full substitution - every reference replaced by its value with all
+   references replaced, recursively - for EVERY iteration order of the two map loops *)
+Theorem C07_expansion_is_full_substitution :
+  forall rank F d0 o1 o2 src,
+  ranked rank d0 -> (forall k, defined d0 k -> (rank k < F)%nat) ->
+  (forall k, defined d0 k -> In k o1) -> (forall k, defined d0 k -> In k o2) ->
+  tok_expand o1 o2 d0 src = full (S F) d0 src.
+Proof. exact tok_expand_is_full_subst. Qed.
+Print Assumptions C07_expansion_is_full_substitution.
+
+Theorem C07_expansion_order_independent :
+  forall rank F d0 o1 o2 o1' o2' src,
+  ranked rank d0 -> (forall k, defined d0 k -> (rank k < F)%nat) ->
+  (forall k, defined d0 k -> In k o1) -> (forall k, defined d0 k -> In k o2) ->
+  (forall k, defined d0 k -> In k o1') -> (forall k, defined d0 k -> In k o2') ->
+  tok_expand o1 o2 d0 src = tok_expand o1' o2' d0 src.
+Proof. exact tok_expand_order_independent. Qed.
+Print Assumptions C07_expansion_order_independent.
+
+Theorem C07_undefined_reference_untouched :
+  forall f d n, ~ defined d n -> full f d [R n] = [R n].
+Proof. exact undefined_reference_untouched. Qed.
+Print Assumptions C07_undefined_reference_untouched.
+
+(* the premises are satisfiable: a chain a -> b -> c, expanded in two different orders *)
+Example C07_chain_example :
+  let d := [($"a", [L 120; R $"b"]); ($"b", [R $"c"; L 121]); ($"c", [L 122])] in
+  tok_expand [$"a"; $"b"; $"c"] [$"c"; $"a"; $"b"] d [R $"a"; L 45; R $"undefined"] = [L 120; L 122; L 121; L 45; R $"undefined"] /\
+  tok_expand [$"c"; $"b"; $"a"] [$"a"; $"b"; $"c"] d [R $"a"; L 45; R $"undefined"] = [L 120; L 122; L 121; L 45; R $"undefined"].
+Proof. split; vm_compute; reflexivity. Qed.
